@@ -104,6 +104,15 @@ PROPS = {
         "trusted_base": ["ids are abstract (DID, path/query form, fragment); DIDUrl parsing/printing is C10's model", "the HashMap of check_id_constraints is a function Id -> Option Bool", "method and service contents other than the id are an opaque body", "serde_json and the serde derive glue of CoreDocumentData (tied by the round-trip oracle and by the gate stream)", "IotaDocument delegates to CoreDocument for every operation here and is exercised by the C09/C14 streams, not this one"],
         "assumptions": ["inserted methods and services carry a non-empty fragment (enforced by their constructors and deserialisers: Op.WF)", "remove_method returning None after removing dangling references to the id is documented behaviour, not a refused operation"],
     },
+    "C09": {
+        "translate": True,
+        "gens": ["C04", "C09"],
+        "diff_is_violation": False,
+        "trivial": ["bad-request", "start:reject"],
+        "rule": "streams, each for CoreDocument and IotaDocument with fault-injecting wrappers around JwkMemStore / KeyIdMemstore (a fault = the call returns an error without effect; faults are given per operation as a subset of {JwkStorage::generate, JwkStorage::delete, KeyIdStorage::insert_key_id, get_key_id, delete_key_id}): (1) corpus; (2) generate_method: EVERY subset of the three calls it makes x 6 scopes x 5 fragment kinds (fresh, from the JWK kid, not DID-URL syntax, clashing with a method, clashing with a service) x 2 start documents (empty; one holding methods, a service and references that do not resolve, one of them to the fragment being generated), followed by a fault-free generate and the state; (3) purge_method: target in each scope, general-purpose targets with 0/1/3 relationship references, EVERY subset of the four calls it makes, state before and after, then a fault-free purge; (4) purge of methods without key, with undecodable key material, unknown ids; (5) 400 (6000) random histories of generate / attach / detach / purge with random fault subsets, state after every step. Implementation-side oracle after every generate/purge: success => complete (method resolves by full id, key exists, key id recorded, signing works / method, references, key and key id gone); error other than UndoOperationFailed => document (==), key store and key-id store unchanged. Non-trivial = start document accepted; distinct request lines.",
+        "trusted_base": ["stores follow JwkMemStore / KeyIdMemstore (insert refuses an existing digest, get/delete refuse a missing one); a fault is a call that fails WITHOUT effect (a call that takes effect and then reports failure is outside the model)", "MethodDigest is the pair (fragment, key material): the 64-bit SeaHash and its collisions are not modelled", "futures::join! of the two deletions is modelled as both calls being made (memstore futures complete at the first poll)", "the document part is the C04 model"],
+        "assumptions": ["UndoOperationFailed is the explicit report the statement exempts", "after a successful generate the method is looked up by its full id: a bare fragment is documented to misbehave when another DID's id carries the same fragment (C04)"],
+    },
     "C18": {
         "translate": True,
         "diff_is_violation": False,
